@@ -93,7 +93,7 @@ static void gen_field(Attr &a, Rng &r, uint32_t bit) {
     case G_ICON: {
         size_t n;
         switch (r.below(6)) {
-        case 0: n = (size_t)r.pickl({0, 1, 2}); break;
+        case 0: n = (size_t)r.pickl({0, 1, 2, 255, 256, 257}); break;
         case 1: n = r.below(600); break;
         case 2: { size_t P = (size_t)r.pickl({542, 1466, 1246, 8966}); n = P * (size_t)r.range(1, 3) + (size_t)r.range(-1, 1); break; }
         case 3: n = (size_t)r.pickl({32766, 32767, 32768, 32769, 40000, 65535, 65536, 70000}); break;
@@ -105,7 +105,7 @@ static void gen_field(Attr &a, Rng &r, uint32_t bit) {
         break;
     }
     case G_FNAME: {
-        size_t n = r.chance(0.3) ? (size_t)r.pickl({0, 2, 64, 200}) : r.below(201);
+        size_t n = r.chance(0.3) ? (size_t)r.pickl({0, 2, 64, 200, 254, 255, 256, 257, 300}) : r.below(201);
         a.fname = rbytes(r, n, false);
         a.fname_avail = !r.chance(0.1);
         break;
@@ -1048,6 +1048,8 @@ void World::exec_op(int i) {
                 for (auto &c : m.a) c = (uint8_t)mr.next();
                 if (m.a[0] == 0x02 || m.a[0] == 0x06 || m.a[0] == 0xFF) m.a[0] = 0x0A;
                 m.a[5] = (uint8_t)((m.a[5] & 0xF0) | ((size_t)op.a[0] & 0x0F));
+                if (nodes[op.a[0]]->glue) glue_set_mac(nodes[op.a[0]]->glue, m.a); // the daemon's copy of the address follows the interface
+                if (nodes[op.a[0]]->twin >= 0 && nodes[nodes[op.a[0]]->twin]->glue) glue_set_mac(nodes[nodes[op.a[0]]->twin]->glue, m.a);
                 note("mac_change");
             }
             if (nodes[op.a[0]]->twin >= 0) nodes[nodes[op.a[0]]->twin]->attr = nodes[op.a[0]]->attr; // the twin is the same interface
